@@ -99,6 +99,11 @@ pub trait Prop: Sync {
     fn parent_phase(&self, _env: &RunEnv, _ev: &mut Value) -> Vec<Violation> {
         Vec::new()
     }
+    /// explicit regression cases (witnesses of known and fixed findings); each returns its
+    /// verdict; run on every check
+    fn regressions(&self) -> Vec<Regression> {
+        Vec::new()
+    }
     /// workers are used at all
     fn uses_workers(&self) -> bool {
         true
@@ -107,6 +112,11 @@ pub trait Prop: Sync {
     fn enumerate(&self, _ctx: &mut Ctx, _thorough: bool, _shard: usize, _nshards: usize) -> Vec<Violation> {
         Vec::new()
     }
+}
+
+pub struct Regression {
+    pub name: &'static str,
+    pub run: fn(&mut Ctx) -> Verdict,
 }
 
 #[derive(Clone, Debug)]
@@ -500,6 +510,7 @@ pub fn write_replay(prop: &str, v: &Violation, seed: u64, tier: &str) -> PathBuf
         "detail": v.detail,
         "choice_bytes_hex": hex(&v.bytes),
         "case": v.case,
+        "regression": v.case.get("regression").cloned().unwrap_or(Value::Null),
         "seed": seed,
         "tier": tier,
         "replay": format!("./check {} --replay {}", prop, bin.display()),
@@ -749,6 +760,36 @@ pub fn run_check(prop: &dyn Prop, tier: &str, seed: u64, pr: &mut Printer) -> i3
                 _ => {}
             }
         }
+        for r in prop.regressions() {
+            c.frozen = false;
+            let v = crate::outcome::guarded(|| (r.run)(&mut c));
+            let (sig, detail) = match v {
+                Ok(Verdict::Fail { sig, detail }) => (sig, detail),
+                Ok(_) => continue,
+                Err((at, msg)) => (format!("panic@{}", at), msg),
+            };
+            if let Some(k) = known
+                .iter()
+                .find(|k| k.status == "known" && k.signature == sig)
+            {
+                let line = format!(
+                    "KNOWN-FINDING: property={} {} [{}]",
+                    prop.id(),
+                    k.what_fails,
+                    k.signature
+                );
+                if !known_lines.contains(&line) {
+                    known_lines.push(line);
+                }
+            } else {
+                violations.push(Violation {
+                    sig,
+                    detail: format!("regression case {}: {}", r.name, detail),
+                    bytes: Vec::new(),
+                    case: json!({"regression": r.name}),
+                });
+            }
+        }
         merged_eval += c.evaluations;
     }
     // known findings hit during the search but without (or in addition to) a witness
@@ -897,6 +938,40 @@ pub fn replay(prop: &dyn Prop, path: &Path, pr: &mut Printer) -> i32 {
     crate::outcome::install_panic_hook();
     let bytes = if path.extension().map_or(false, |e| e == "json") {
         let v: Value = serde_json::from_slice(&fs::read(path).expect("read replay")).expect("json");
+        if let Some(name) = v["regression"].as_str() {
+            let mut c = Ctx::default();
+            for r in prop.regressions() {
+                if r.name == name {
+                    return match crate::outcome::guarded(|| (r.run)(&mut c)) {
+                        Ok(Verdict::Fail { sig, detail }) => {
+                            pr.line(&format!(
+                                "VIOLATION property={} replay={}",
+                                prop.id(),
+                                path.display()
+                            ));
+                            pr.line(&format!("  signature: {}", sig));
+                            pr.line(&format!("  detail: {}", detail));
+                            1
+                        }
+                        Ok(_) => {
+                            pr.line("replay: PASS");
+                            0
+                        }
+                        Err((at, msg)) => {
+                            pr.line(&format!(
+                                "VIOLATION property={} replay={}",
+                                prop.id(),
+                                path.display()
+                            ));
+                            pr.line(&format!("  signature: panic@{}\n  detail: {}", at, msg));
+                            1
+                        }
+                    };
+                }
+            }
+            pr.line("unknown regression case");
+            return 2;
+        }
         unhex(v["choice_bytes_hex"].as_str().unwrap_or(""))
     } else {
         fs::read(path).expect("read replay")
